@@ -334,6 +334,11 @@ def run(scn):
             # clause 3: error type
             if kind.startswith('foreign') and not cleanup_faulted:
                 V('C13.3-writer-error', 'failure surfaced as %s, not the writer error (fault %s %s)' % (kind, site, act), site=site, action=act, exception=kind)
+            elif kind.startswith('foreign') and not isinstance(exc, OSError):
+                # the clean-up itself was made to fail as well: its OSError may come through (the statement speaks of a
+                # single failing step), but an exception that no I/O step raises is a defect of the handler whatever failed
+                V('C13.3-writer-error', 'with the clean-up failing too, the failure surfaced as %s (faults %s)' % (kind, [f['site'] for f in fired_now]),
+                  site='cleanup', action='double-fault', exception=kind)
             # a fault in a primary step must not be swallowed into success silently with wrong content -> covered by clause 4
             # clause 2: no temp files
             if kind != 'killed' and not cleanup_faulted:
@@ -504,6 +509,13 @@ def expand_faults(base):
         s.pop('fault_op', None)
         s['faults'] = [{'op': op, 'site': site, 'nth': nth, 'action': 'kill', 'arg': None}]
         scns.append(s)
+        if site in ('os.write', 'os.close', 'os.rename', 'file.write', 'file.close') and nth == 0:
+            # ... and the removal of the temporary file fails as well (not judged for what the statement leaves open, only
+            # for atomicity and for exceptions no I/O step raises)
+            s = copy.deepcopy(base)
+            s.pop('fault_op', None)
+            s['faults'] = [{'op': op, 'site': site, 'nth': nth, 'action': 'errno', 'arg': 'EIO'}, {'op': op, 'site': 'os.unlink', 'nth': 0, 'action': 'errno', 'arg': 'EACCES'}]
+            scns.append(s)
     return scns
 
 
